@@ -48,6 +48,9 @@ def run(model, rep, tier):
              'original objects at each such call, unless the callback itself handles the exception '
              'and restores them')
     tsrules.streams_when_hook_raises(ctx, rep, 'C18.R7')
+    r8_trace_api_table(ctx, rep)
+    from . import robust
+    robust.asserts_have_no_effects(ctx, rep, 'C18.R20', 'C18')
     rep.units['cfg'] = ctx.cfg_stats
 
 
@@ -500,3 +503,54 @@ def r6_restore_before_fallible_teardown(ctx, rep, R='C18.R6'):
     rep.sample('teardown order: ' + ' > '.join('%s.%s%s%s' % (c.name, h, '[restores]' if r else '',
                                                              '[io]' if io else '')
                                                for c, h, r, io in seq))
+
+
+# interpreter APIs that install or read a trace / profile function, with what they touch.  Anything
+# else of sys / threading whose name speaks of tracing or profiling is not tabulated: its effect on
+# the CURRENT thread is unknown to the save / restore pairing of R2 (threading.settrace_all_threads,
+# for instance, also replaces the trace function of the calling thread, behind the value that
+# sys.settrace(old) has just put back).
+TRACE_API = {
+    'sys.settrace': 'current thread', 'sys.gettrace': 'read', 'sys.setprofile': 'current thread',
+    'sys.getprofile': 'read', 'threading.settrace': 'threads started later',
+    'threading.gettrace': 'read', 'threading._trace_hook': 'read',
+    'threading.setprofile': 'threads started later', 'threading.getprofile': 'read',
+    'threading._profile_hook': 'read',
+}
+
+
+def r8_trace_api_table(ctx, rep, R='C18.R8'):
+    rep.rule(R, 'the save / restore pairing of the trace and profile functions (R2) knows every API '
+             'the package uses for them: each reference to a sys / threading attribute whose name '
+             'speaks of trace or profile is one of the tabulated per-thread / later-threads setters '
+             'and getters; an API that reaches other running threads (…_all_threads) also overwrites '
+             'the current thread\'s function behind the restored value')
+    m = ctx.model
+    n = 0
+    for mod in m.modules.values():
+        if mod.name.startswith('tests'):
+            continue
+        for x in ast.walk(mod.tree):
+            if isinstance(x, ast.Name) and isinstance(x.ctx, ast.Load) and x.id in mod.imports:
+                r = mod.imports[x.id]
+            elif isinstance(x, ast.Attribute):
+                d = dotted(x)
+                if not d:
+                    continue
+                r = m.resolve_dotted(mod, d) or d
+            else:
+                continue
+            head, _, attr = r.rpartition('.')
+            if head not in ('sys', 'threading'):
+                continue
+            low = attr.lower()
+            if 'trace' not in low.replace('traceback', '').replace('tracebacklimit', '') and 'profile' not in low:
+                continue
+            n += 1
+            rep.check(r in TRACE_API, R, '%s: %s is a tabulated trace / profile API (%s)' % (
+                mod.name, r, TRACE_API.get(r, '?')),
+                '%s refers to %s, whose effect on the trace / profile function of the current thread is '
+                'not what the save / restore pairing assumes (not one of %s)' % (
+                    mod.name, r, sorted(TRACE_API)), key='trace-api:%s:%s' % (mod.name, r),
+                func=mod.name, where='%s:%d' % (mod.path, x.lineno))
+    rep.floor(R, n, 4, 'references to trace / profile APIs of sys / threading')
